@@ -40,6 +40,25 @@ ORB_SPACING_TOL = {"Mercury": 0.001, "Venus": 0.003, "Earth": 0.015, "Mars": 0.0
 ACC = {"Mercury": 1.0, "Venus": 1.0, "Earth": 1.0, "Mars": 1.0, "Jupiter": 2.0, "Saturn": 2.0, "Uranus": 2.0,
        "Neptune": 2.0}
 
+# Known findings (known_findings.json, property C13) are reported under their key only inside the envelope
+# measured on the unchanged tree; beyond it the key gets the suffix -gross (= a new violation).
+#   event offset (days) of the returned instant against the library's VSOP87, unchanged tree, 60 random queries per
+#   finder over -2000..4000 (smallest window in which the defining sign change is seen, maximum over the sample):
+#   Jupiter.passage_nodes 15..20, Saturn.passage_nodes 60..80, Uranus.passage_nodes 400..500,
+#   Uranus.perihelion_aphelion 6..8 (Jupiter/Saturn perihelion_aphelion: <= 2, i.e. fine)
+EVENT_ENV = {"Jupiter.passage_nodes": 30.0, "Saturn.passage_nodes": 100.0, "Uranus.passage_nodes": 600.0,
+             "Uranus.perihelion_aphelion": 10.0}
+#   backward drift (days) of the answer for one and the same node passage: Saturn <= 10.4, Uranus <= 69
+BACK_ENV = {"Saturn.passage_nodes": 12.0, "Uranus.passage_nodes": 80.0}
+RAISE_ENV = {"Jupiter": "Invalid interval: Probably no root exists", "Saturn": "Invalid interval: Probably no root exists"}
+
+# perihelion_aphelion interpolates the same VSOP87 radius vector the oracle uses: on the unchanged tree its answer is
+# within 0.01 d of the extremum for Mercury..Mars and Earth (calibration), so these are held to 0.1 d instead of 1 d
+PERI_ACC = {"Mercury": 0.1, "Venus": 0.1, "Earth": 0.1, "Mars": 0.1}
+# passage_nodes = nearest perihelion (within P/2 of the query) + up to ~0.53 P to the node: Mercury's descending node
+# passage is up to 1.032 P from the query on the unchanged tree (known finding inside 1.06 P)
+FAR_ENV = {"Mercury.passage_nodes": 1.06}
+
 REQUIRED = (["Epoch.year", "Epoch.get_doy", "Angle.__init__", "Angle.to_positive", "Angle.rad", "Epoch.__init__"]
             + ["%s.%s" % (p, f) for p, fs in PERIODIC.items() for f in fs]
             + ["%s.perihelion_aphelion" % p for p in ORBITAL] + ["%s.passage_nodes" % p for p in ORBITAL])
@@ -306,7 +325,11 @@ def sweep(mods, sky, planet, fname, variant, start, nper, steps, add, stats, che
         try:
             res, extra = call(mods, planet, fname, variant, q)
         except Exception as ex:
-            key = "orbital-finder-raises:%s" % planet if orbital else "raises:%s" % kname
+            if orbital and isinstance(ex, ValueError) and RAISE_ENV.get(planet) == str(ex):
+                key = "orbital-finder-raises:%s" % planet
+                stats["known"][key] = stats["known"].get(key, 0) + 1
+            else:
+                key = "raises:%s" % kname
             add(key, "%s(Epoch(%r)) raises %s: %s" % (name, q, type(ex).__name__, ex), planet, fname, variant, q)
             prev = None
             continue
@@ -315,13 +338,22 @@ def sweep(mods, sky, planet, fname, variant, start, nper, steps, add, stats, che
             continue
         # within one period of the query
         if abs(res - q) >= P:
-            add("far-from-query:%s" % kname, "%s(Epoch(%r)) -> %r, %.2f days from the query (period %.2f)" % (name, q, res, res - q, P),
+            key = "far-from-query:%s" % kname
+            if kname in FAR_ENV:
+                if abs(res - q) > FAR_ENV[kname] * P: key += "-gross"
+                else: stats["known"][key] = stats["known"].get(key, 0) + 1
+            add(key, "%s(Epoch(%r)) -> %r, %.2f days from the query (period %.2f)" % (name, q, res, res - q, P),
                 planet, fname, variant, q)
         new_event = prev is None or abs(res - prev[1]) >= same_w
         if prev is not None:
             pq, pres = prev
             if res < runmax[1] - back_w:
-                add("moves-backwards:%s" % kname, "%s: query %r -> %r but later query %r -> %r (%.4f days earlier)"
+                amount = runmax[1] - res
+                key = "moves-backwards:%s" % kname
+                if kname in BACK_ENV and amount > BACK_ENV[kname]: key += "-gross"
+                if kname in BACK_ENV:
+                    stats["max_backward_drift_days"][kname] = round(max(stats["max_backward_drift_days"].get(kname, 0.0), amount), 3)
+                add(key, "%s: query %r -> %r but later query %r -> %r (%.4f days earlier)"
                     % (name, runmax[0], runmax[1], q, res, runmax[1] - res), planet, fname, variant, q)
             elif new_event:
                 gap = res - pres
@@ -336,10 +368,18 @@ def sweep(mods, sky, planet, fname, variant, start, nper, steps, add, stats, che
             nd += 1
             stats["distinct_nontrivial"] += 1
             if check_every and nd % check_every == 0 and not (planet == "Earth" and fname == "passage_nodes"):
-                why = check_event(sky, planet, fname, variant, res, extra, ACC[planet])
+                acc = PERI_ACC.get(planet, ACC[planet]) if fname == "perihelion_aphelion" else ACC[planet]
+                why = check_event(sky, planet, fname, variant, res, extra, acc)
                 stats["events_checked"] += 1
                 if why:
-                    add("not-the-event:%s" % kname, "%s(Epoch(%r)) -> %r: %s" % (name, q, res, why), planet, fname, variant, q)
+                    key = "not-the-event:%s" % kname
+                    if kname in EVENT_ENV:
+                        if check_event(sky, planet, fname, variant, res, extra, EVENT_ENV[kname]):
+                            key += "-gross"
+                            why += " (nor within the known envelope of %g d)" % EVENT_ENV[kname]
+                        else:
+                            stats["known"][key] = stats["known"].get(key, 0) + 1
+                    add(key, "%s(Epoch(%r)) -> %r: %s" % (name, q, res, why), planet, fname, variant, q)
         prev = (q, res)
 
 
@@ -354,7 +394,12 @@ def search(rng, tier, deep):
         if seen[key] <= 2 and len(findings) < 60:
             findings.append({"key": key, "what": what, "input": [planet, fname, variant, q],
                              "replay": replay_cmd(planet, fname, variant, q)})
-    stats = {"evaluations": 0, "distinct_nontrivial": 0, "events_checked": 0, "gaps": {}}
+    stats = {"evaluations": 0, "distinct_nontrivial": 0, "events_checked": 0, "gaps": {}, "known": {},
+             "max_backward_drift_days": {},
+             "known_envelopes": {"event_offset_days": EVENT_ENV, "backward_drift_days": BACK_ENV,
+                                 "measured_on_unchanged_tree": "event offsets (max over -2000..4000): Jupiter nodes 15..20 d, Saturn nodes 60..80 d, Uranus nodes 400..500 d, "
+                                 "Uranus perihelion/aphelion 6..8 d; backward drift within one node passage: Saturn <= 10.4 d, Uranus <= 69 d; "
+                                 "ValueError: Jupiter 76/1012 and Saturn 44/408 of the orbits -2000..4000"}}
     full = deep or tier == "thorough"
     for (p, f, v) in all_finders():
         P = period_of(p, f)
@@ -369,6 +414,8 @@ def search(rng, tier, deep):
             starts = [JD_LO + 2]
         for s in starts[:neras]:
             sweep(mods, sky, p, f, v, s, nper, steps, add, stats, ce)
+        if (p, f, v) == ("Mercury", "passage_nodes", False):
+            sweep(mods, sky, p, f, v, 3147984.071399223, 1, 1, add, stats, 1)
     # (c) refusals
     for p, fs in PERIODIC.items():
         cls = getattr(mods[p], p)
